@@ -575,7 +575,7 @@ func (pt *c07Part) checkQuorum(index uint64, prev c07Digest) {
 // ---------------------------------------------------------------- driving
 
 func c07Ctx() (context.Context, context.CancelFunc) {
-	return context.WithTimeout(context.Background(), 5*time.Second)
+	return context.WithTimeout(context.Background(), 3*time.Second)
 }
 
 // newPart proposes a stream with one partition replicated on phantom ids
